@@ -5,7 +5,7 @@ import json
 import os
 import subprocess
 
-from .. import common, doccheck, gen_doc
+from .. import regen, common, doccheck, gen_doc
 from ..gen_doc import DocGen
 
 
@@ -99,6 +99,24 @@ def targeted_docs(rng, n):
         lines += ["        QLayout.onRowChanged: {}", "        QLayout.onColumnChanged: {}", "        QLayout.onDestroyed: {}",
                   "        font.onBoldChanged: {}", "        font.onFamilyChanged: {}", "        font { onItalicChanged: {}; onKerningChanged: {} }",
                   "    }", "    }", "}", ""]
+        d = RawDoc("\n".join(lines))
+        d.fault = "multi"
+        docs.append(d)
+    # a gadget group with one dynamic member (the group is then handled by both passes) and several ill-typed constant members:
+    # each error is reported as often in every run
+    for k in range(max(2, n // 4)):
+        bad = ['bold: "yes"', 'italic: "no"', "pointSize: true", 'underline: "u"', "family: 1", 'strikeOut: "s"', "kerning: 2.5"]
+        rng.shuffle(bad)
+        bad = bad[:rng.randint(2, 5)]
+        dyn = rng.choice(("weight: sp.value", "pixelSize: sp.value + %d" % k, "overline: cb.checked"))
+        members = bad + [dyn]
+        rng.shuffle(members)
+        lines = ["import qmluic.QtWidgets", "QWidget {", "    QSpinBox { id: sp }", "    QCheckBox { id: cb }", "    QLabel {"]
+        if k % 2:
+            lines += ["        font.%s" % m for m in members]
+        else:
+            lines.append("        font { %s }" % "; ".join(members))
+        lines += ["    }", "}", ""]
         d = RawDoc("\n".join(lines))
         d.fault = "multi"
         docs.append(d)
@@ -275,8 +293,16 @@ def run(tier, seed, replay=None):
     if order_hist and max(order_hist) < 2:
         v.inconc("hash seeds did not vary: every document showed a single binding visit order")
     v.assumptions = ["hash-order diversity is measured, not assumed: the hook reports the order in which the real HashMaps were iterated"]
+    # same inputs, same outputs -- whatever the output directory held before (edits that leave one of the two outputs unchanged)
+    _w = regen.HEAD + "QWidget {\n    QCheckBox { id: sel }\n    QLineEdit { id: e1 }\n    QLineEdit { id: e2 }\n%s}\n"
+    n_hist = 0 if replay else regen.regenerated_equals_fresh(v, "c08hist", [
+        (_w % "    QLabel { text: e1.text }\n", _w % "    QLabel { text: e2.text }\n"),
+        (_w % "    QPushButton { onClicked: e1.clear() }\n", _w % "    QPushButton { onClicked: e2.clear() }\n"),
+        (_w % "    QLabel { text: e1.text; enabled: sel.checked }\n", _w % "    QLabel { text: e1.text; enabled: true }\n"),
+        (_w % "    QLabel { text: \"abc\" }\n", _w % "    QLabel { text: \"abd\" }\n"),
+    ], "cli-history-dependent", "outputs of an earlier revision present")
     return v.finish(
-        evaluations=evaluations + 3 * cli_checked + n_multi, distinct_nontrivial=distinct,
+        histories_on_disk=n_hist, evaluations=evaluations + 3 * cli_checked + n_multi, distinct_nontrivial=distinct,
         rule="hash-heavy documents (12-30 bindings per object, gadgets, palettes, several callbacks, both system includes, "
              "several error diagnostics) translated %d times each in %d batches of fresh processes and shuffled order, "
              "plus 3 CLI runs; distinct non-trivial = documents for which >= 2 distinct binding visit orders were observed "
